@@ -299,7 +299,7 @@ func account(c Case) {
 
 func TestRoundTrip(t *testing.T) {
 	o := &tgen.Opts{NoWideIDs: evid.KnownActive(classWideIDs)}
-	n := 10000
+	n := 12000
 	if evid.Thorough() {
 		o.MaxDepth = 4
 	}
